@@ -3,7 +3,8 @@ import AdfObdd.Spec.TT
 /-! # The second back-end: `adfbiodivine.rs` (`Adf` on top of the external crate `biodivine_lib_bdd`)
 
 Only the back-end's OWN logic is modelled: `from_parser`, `stm_rewriting`, `var_list`,
-`var_list_from_term`, `BddRestrict::restrict` (= `select` then `exists`), `grounded_internal`,
+`var_list_from_term`, `ac.restrict(..)` (= the LIBRARY's inherent `Bdd::restrict`; the file's own
+`impl BddRestrict` = `select` then `exists` is dead code, kept as `restrictSE`), `grounded_internal`,
 `complete`, `stable`, `stable_representation`, `stable_model_candidates`,
 `stable_bdd_representation`, `cmp_information`, and the native
 `Adf::stable_bdd_representation(&biodivine)` of `adf.rs`.
@@ -62,6 +63,11 @@ def sel (f : BoolFn) (l : List (Nat × Bool)) : BoolFn := fun σ => f σ && l.al
 def ex1 (f : BoolFn) (v : Nat) : BoolFn := fun σ => f (upd σ v false) || f (upd σ v true)
 /-- `Bdd::exists`: projection = existential quantification of every listed variable -/
 def exL (f : BoolFn) (vs : List Nat) : BoolFn := vs.foldl ex1 f
+/-- successive updates, the first pair of the list applied last (for pairwise different variables
+the order does not matter): `σ[variables := values]` -/
+def updL (σ : Asg) : List (Nat × Bool) → Asg
+  | [] => σ
+  | p :: l => upd (updL σ l) p.1 p.2
 /-- the assignment given by a valuation of the declared variables -/
 def asgOf (val : List Bool) : Asg := fun i => val.getD i false
 
@@ -79,6 +85,10 @@ structure Lib (T : Type) where
   select : T → List (Nat × Bool) → T
   /-- `Bdd::exists(&[var])` -/
   exist : T → List Nat → T
+  /-- the INHERENT `Bdd::restrict(&[(var, value)])` of biodivine_lib_bdd 0.5.23
+  (`_impl_relation_ops.rs`, routine `restriction`): what `ac.restrict(&list)` in `adfbiodivine.rs`
+  resolves to (method resolution prefers the inherent method to the file's own `impl BddRestrict`) -/
+  restrict : T → List (Nat × Bool) → T
   and : T → T → T
   iff : T → T → T
   /-- `Bdd::sat_valuations().collect()`, a valuation = the values of the declared variables in order -/
@@ -99,6 +109,13 @@ structure Lawful {T : Type} (L : Lib T) (nv : Nat) where
     Valid (L.select t l) ∧ den (L.select t l) = sel (den t) l
   exist_spec : ∀ t vs, Valid t → (∀ v ∈ vs, v < nv) →
     Valid (L.exist t vs) ∧ den (L.exist t vs) = exL (den t) vs
+  /-- the library's documented contract of `restrict` ("a valuation v satisfies the result iff
+  v[variables := values] satisfies the original"): the COFACTOR by the listed literals; assumed for
+  lists of pairwise different declared variables only (all the back-end ever passes). `Valid` of the
+  result is what keeps `is_true` / `is_false` exact on it (`isTrue_spec`: in the crate these are
+  node-count tests, exact because the result is a reduced diagram). -/
+  restrict_spec : ∀ t l, Valid t → (∀ p ∈ l, p.1 < nv) → (l.map (·.1)).Nodup →
+    Valid (L.restrict t l) ∧ den (L.restrict t l) = fun σ => den t (updL σ l)
   and_spec : ∀ a b, Valid a → Valid b → Valid (L.and a b) ∧ den (L.and a b) = fun σ => den a σ && den b σ
   iff_spec : ∀ a b, Valid a → Valid b → Valid (L.iff a b) ∧ den (L.iff a b) = fun σ => den a σ == den b σ
   sat_spec : ∀ t, Valid t → (L.satVals t).Nodup ∧
@@ -124,13 +141,16 @@ def cmpInfo (x : Nat) (t : T) : Bool := (isTV x == L.isTV t) && ((x == 1) == L.i
 /-- `ac.restrict(&var_list)`. CAUTION (found by a coverage run of the harness, not by reading):
 the back-end's own `impl BddRestrict for Bdd { fn restrict … select(..).exists(..) }` is DEAD code -
 biodivine_lib_bdd 0.5.23 has an inherent `Bdd::restrict` (and `var_restrict`), which method
-resolution prefers, so the call runs the library's own `restriction` routine. Its documented
-contract ("a valuation v satisfies the result iff v[variable = value] satisfies the original") is the
-cofactor equation; this definition computes the same function by the shadowed composition
-`select` then `exists` (`Bio.restrict_den` proves the cofactor equation for it), so on a
-function-canonical representation (both instances below) the terms coincide. The assumption about
-the external library therefore INCLUDES "restrict = cofactor". -/
-def restrict (t : T) (vl : List (Nat × Bool)) : T := L.exist (L.select t vl) (vl.map (·.1))
+resolution prefers, so the call runs the library's own `restriction` routine = the operation
+`Lib.restrict` of the interface. The assumption about the external library therefore INCLUDES the
+law `Lawful.restrict_spec` ("restrict = cofactor"); it is NOT derived from the laws of `select` and
+`exists`. -/
+def restrict (t : T) (vl : List (Nat × Bool)) : T := L.restrict t vl
+
+/-- the shadowed `impl BddRestrict for Bdd` of `adfbiodivine.rs` (`select`, then `exists` of the
+selected variables): never executed; `Bio.restrictSE_den` (BioProofs.lean) derives from the laws of
+`select` / `exists` that it denotes the same cofactor as the operation that runs -/
+def restrictSE (t : T) (vl : List (Nat × Bool)) : T := L.exist (L.select t vl) (vl.map (·.1))
 
 /-- `var_list(&[Bdd])` -/
 def varList (cur : List T) : List (Nat × Bool) :=
@@ -243,6 +263,7 @@ noncomputable def fnLib (nv : Nat) : Lib BoolFn where
   isFalse := fun f => decide (∀ σ, f σ = false)
   select := sel
   exist := exL
+  restrict := fun f l σ => f (updL σ l)
   and := fun f g σ => f σ && g σ
   iff := fun f g σ => f σ == g σ
   satVals := fun f => (allVals nv).filter (fun val => f (asgOf val))
@@ -292,6 +313,7 @@ noncomputable def fnLawful (nv : Nat) : Lawful (fnLib nv) nv where
   isFalse_spec := fun f _ => by simp [fnLib]
   select_spec := fun _ _ _ _ => ⟨trivial, rfl⟩
   exist_spec := fun _ _ _ _ => ⟨trivial, rfl⟩
+  restrict_spec := fun _ _ _ _ _ => ⟨trivial, rfl⟩
   and_spec := fun _ _ _ _ => ⟨trivial, rfl⟩
   iff_spec := fun _ _ _ _ => ⟨trivial, rfl⟩
   sat_spec := fun f _ => by
@@ -323,6 +345,7 @@ def ttLib (nv : Nat) : Lib Nat where
     TT.and acc (if p.2 then TT.var nv p.1 else TT.not nv (TT.var nv p.1))) t
   exist := fun t vs => vs.foldl (fun acc v =>
     TT.or (TT.restrict nv acc v false) (TT.restrict nv acc v true)) t
+  restrict := fun t l => l.foldl (fun acc p => TT.restrict nv acc p.1 p.2) t
   and := TT.and
   iff := TT.iff nv
   satVals := fun t => ((List.range (2 ^ nv)).filter (fun a => t.testBit a)).map (bitsList nv)
